@@ -71,7 +71,7 @@ def run_impl(case, d):
             out["anno"] = None if adf is None else {str(int(key[0])): v for key, v in _rows(adf, ["rank"], k).items()}
         except Exception as e:
             out["anno_error"] = "get_gpu_user_annotation_breakdown: " + type(e).__name__ + ": " + str(e)[:200]
-    return {"frames": frames, "out": out}
+    return {"frames": frames, "out": out, "frames_altered": fw.frames_altered(case, ta, frames, sym)}
 
 
 def _tab(impl):
